@@ -1,7 +1,27 @@
-(* Entry point of the extracted model for property C13: run_C13 case = observation. *)
+(* Entry point of the extracted model for property C13: run_C13 case = observation.
+   cases: (1 bytes) / (7 bytes)     parsePSIData on the concatenated payload (pointer_field first)
+          (2 psidata)               writePSIData
+          (3 psidata pid packet)    PSIData.toData
+          (4 section)               calcPSISectionLength
+          (5 pmtdata)               calcPMTSectionLength
+          (6 bytes)                 parse, then write the result back *)
 From Coq Require Import ZArith List.
-Require Import Base.Tok Base.Iter Extract.RunBase.
+Require Import Base.Tok Base.Iter Base.Wr Gen.Types Model.Psi Extract.RunBase.
 Import ListNotations.
 Open Scope Z_scope.
 
-Definition run_C13 (t : tok) : tok := TL [].
+Definition run_C13 (t : tok) : tok :=
+  match tI (tnth 0 t) with
+  | 1 | 7 => tok_of_res tok_of_PSIData (parse_psi_data_bytes (tB (tnth 1 t)))
+  | 2 => tok_of_res TB (write_psi_data (PSIData_of_tok (tnth 1 t)))
+  | 3 => TL (map tok_of_DemuxerData
+               (psi_to_data (PSIData_of_tok (tnth 1 t)) (Packet_of_tok (tnth 3 t)) (tI (tnth 2 t))))
+  | 4 => tok_of_res TI (calc_psi_section_length_res (PSISection_of_tok (tnth 1 t)))
+  | 5 => TI (calc_pmt_section_length (PMTData_of_tok (tnth 1 t)))
+  | 6 => match parse_psi_data_bytes (tB (tnth 1 t)) with
+         | Ok d => TL [TI 0; tok_of_PSIData d; tok_of_res TB (write_psi_data d)]
+         | Err c => TL [TI 1; TI c]
+         | Panic => TL [TI 2]
+         end
+  | _ => TL []
+  end.
